@@ -12,6 +12,7 @@ CONSTANTS
  MaxBad = 0
  MaxRestore = 1
  MaxBadUnit = 0
+ RePut = TRUE
  DocNKeys = 1
  DocShapes = {"p"}
  DocMaxBatch = 1
